@@ -11,6 +11,7 @@ import (
 
 	"github.com/absfs/absnfs"
 
+	"verif/sim/simfs"
 	"verif/sim/simrt"
 )
 
@@ -134,11 +135,14 @@ func runSeq(owners ...string) func(t *testing.T, scAny any, trace bool) *Outcome
 				} else {
 					simrt.Sleep(2 * time.Millisecond)
 				}
-				n0 := r.w.NCalls
 				r.cl.trace = r.cl.trace[:0]
+				r.inj0 = r.w.FS.Injected()
+				r.lastWrite = nil
+				hr0 := r.h(op.H)
 				r.step(i-npro, op)
-				_ = n0
-				if !r.faulty {
+				if r.faulted() {
+					r.afterFaulted(fmt.Sprintf("#%d %s", i-npro, op.Op), hr0)
+				} else {
 					r.compareTree(fmt.Sprintf("#%d %s", i-npro, op.Op))
 				}
 				if rd != nil {
@@ -534,7 +538,49 @@ func genC01(r *simrt.Rand, tier string) any {
 			sc.Ops = append(sc.Ops, Op{Op: "SLEEP", SleepMs: []int{1, 100, 3000, 6000}[r.Int(4)]})
 		}
 	}
+	if r.Pct(35) {
+		genIOFaults(r, sc)
+	}
 	return sc
+}
+
+// genIOFaults turns a C01-style history into a fault-injecting one: 1-3 backend fault rules (I/O errors,
+// full disk, short writes and reads, failing fsync/close/truncate/stat) that fire inside the data path of
+// some later request. CREATE is taken out of such histories (its many-step backend sequence is C03's and
+// C02's business and is judged there without faults).
+func genIOFaults(r *simrt.Rand, sc *SeqScn) {
+	for i := range sc.Ops {
+		if sc.Ops[i].Op == "CREATE" {
+			sc.Ops[i] = Op{Op: "GETATTR", H: sc.Ops[i].H}
+		}
+	}
+	nf := 1 + r.Int(3)
+	for i := 0; i < nf; i++ {
+		f := simfs.Fault{Nth: 1 + r.Int(8)}
+		switch r.Pick([]int{30, 12, 10, 12, 5, 8, 8, 5, 5, 5}) {
+		case 0:
+			f.Op, f.Kind, f.Short = "File.WriteAt", "short", []int{0, 1, 2, 3, 7, 100, 1000, 4095, 4096, 4097}[r.Int(10)]
+		case 1:
+			f.Op, f.Kind = "File.WriteAt", []string{"eio", "enospc"}[r.Int(2)]
+		case 2:
+			f.Op, f.Kind = "File.Sync", "eio"
+		case 3:
+			f.Op, f.Kind = []string{"Truncate", "File.Truncate"}[r.Int(2)], []string{"eio", "enospc"}[r.Int(2)]
+		case 4:
+			f.Op, f.Kind = "File.Close", "eio"
+		case 5:
+			f.Op, f.Kind, f.Short = "File.ReadAt", "short", []int{0, 1, 3, 100}[r.Int(4)]
+		case 6:
+			f.Op, f.Kind = "File.ReadAt", "eio"
+		case 7:
+			f.Op, f.Kind = []string{"Stat", "Lstat", "File.Stat"}[r.Int(3)], "eio"
+		case 8:
+			f.Op, f.Kind = "OpenFile", []string{"eio", "eacces"}[r.Int(2)]
+		case 9:
+			f.Op, f.Kind = []string{"Chtimes", "Chmod"}[r.Int(2)], "eio"
+		}
+		sc.Faults = append(sc.Faults, f)
+	}
 }
 
 func init() {
@@ -801,6 +847,20 @@ func genC03(r *simrt.Rand, tier string) any {
 			sc.Ops = append(sc.Ops, Op{Op: "REMOVE", H: 0, Name: names[r.Int(len(names))]})
 		case 3:
 			sc.Ops = append(sc.Ops, Op{Op: "SLEEP", SleepMs: []int{1, 3000, 7000}[r.Int(3)]})
+		}
+	}
+	if r.Pct(30) {
+		// fault-injecting class: 1-2 backend errors land inside some CREATE (at its existence check, the
+		// create itself, or while it applies sattr3). A faulted CREATE may fail with any error; it must
+		// still never succeed where the mode forbids it nor destroy the data of an existing file.
+		nf := 1 + r.Int(2)
+		for i := 0; i < nf; i++ {
+			f := simfs.Fault{Nth: 1 + r.Int(14), Kind: "eio"}
+			f.Op = []string{"Lstat", "Lstat", "Lstat", "Stat", "Create", "OpenFile", "Truncate", "Chmod", "Chown", "File.Close"}[r.Int(10)]
+			if r.Pct(20) {
+				f.Kind = []string{"enospc", "eacces"}[r.Int(2)]
+			}
+			sc.Faults = append(sc.Faults, f)
 		}
 	}
 	return sc
